@@ -60,8 +60,8 @@ type coll3 struct {
 	extent  float64
 	feature float64
 	closed  bool
-	approx  float64 // >0: approximate collider (SolidCollider), tolerance on hit positions
-	edges   func(model3d.Coord3D) float64 // mesh colliders: distance to the nearest mesh edge
+	approx  float64                         // >0: approximate collider (SolidCollider), tolerance on hit positions
+	edges   func(model3d.Coord3D) float64   // mesh colliders: distance to the nearest mesh edge
 	rayOK   func(o, d model3d.Coord3D) bool // extra general-position requirement on the ray itself
 }
 
@@ -445,7 +445,6 @@ func check2D(r *ev.Run) {
 	}
 }
 
-
 // solidLattice drives the ray-marching collider with "round" rays: axis-parallel rays from lattice origins
 // through boxes whose faces coincide with their bounds, with step sizes that divide the box exactly (and some
 // that do not). The crossings of such a ray are known in closed form.
@@ -603,6 +602,7 @@ func main() {
 		ballStage(r, false)
 		queryStage(r, false)
 		containStage(r, false)
+		solidBallStage(r, false)
 		r.NontrivialAdd(2)
 		r.Sample(c)
 		r.Finish()
@@ -622,6 +622,6 @@ func main() {
 	r.Isolate("solid-lattice", func() { solidLattice(r, th) })
 	r.Isolate("feature-balls", func() { ballStage(r, th) })
 	r.Isolate("shape-queries", func() { queryStage(r, th) })
-	r.Isolate("containment", func() { containStage(r, th) })
+	r.Isolate("containment", func() { containStage(r, th); solidBallStage(r, th) })
 	r.Finish()
 }
